@@ -40,6 +40,14 @@ func init() {
 		"strings.Join":                     icStringsJoin,
 		"strings.Map":                      icConcreteOnly,
 		"strings.TrimSpace":                icConcreteStr1(strings.TrimSpace),
+		"strings.ToUpper":                  icConcreteStr1(strings.ToUpper),
+		"strings.Split":                    icStringsSplit,
+		"strings.Fields":                   icStringsFields,
+		"strings.Count":                    icStrStrInt(strings.Count),
+		"strings.LastIndex":                icStrStrInt(strings.LastIndex),
+		"strings.Trim":                     icStrStrStr(strings.Trim),
+		"strings.TrimLeft":                 icStrStrStr(strings.TrimLeft),
+		"strings.TrimRight":                icStrStrStr(strings.TrimRight),
 		"(*strings.Builder).WriteString":   icBuilderWriteString,
 		"(*strings.Builder).WriteByte":     icBuilderWriteByte,
 		"(*strings.Builder).String":        icBuilderString,
@@ -1262,4 +1270,52 @@ func nativeHash32(tag string, a, b uint64) []byte {
 	binary.BigEndian.PutUint64(buf[8:], b)
 	h := sha256.Sum256(append([]byte(tag), buf[:]...))
 	return h[:]
+}
+
+func (e *Engine) goStrings(list []string) *Slice {
+	agg := e.newAgg(types.Typ[types.String], len(list))
+	for i, x := range list {
+		agg.cells[i].v = e.concStr(x)
+	}
+	n := e.c64(uint64(len(list)))
+	return &Slice{agg: agg, off: e.c64(0), len: n, cap: n}
+}
+
+func icStringsSplit(e *Engine, fr *frame, fn *ssa.Function, args []Value, c *ssa.CallCommon) (Value, bool) {
+	a, ok1 := e.goString(args[0])
+	b, ok2 := e.goString(args[1])
+	if !ok1 || !ok2 {
+		panic(e.unsupported("strings.Split on symbolic strings"))
+	}
+	return e.goStrings(strings.Split(a, b)), true
+}
+
+func icStringsFields(e *Engine, fr *frame, fn *ssa.Function, args []Value, c *ssa.CallCommon) (Value, bool) {
+	a, ok := e.goString(args[0])
+	if !ok {
+		panic(e.unsupported("strings.Fields on symbolic strings"))
+	}
+	return e.goStrings(strings.Fields(a)), true
+}
+
+func icStrStrInt(f func(a, b string) int) interceptFn {
+	return func(e *Engine, fr *frame, fn *ssa.Function, args []Value, c *ssa.CallCommon) (Value, bool) {
+		a, ok1 := e.goString(args[0])
+		b, ok2 := e.goString(args[1])
+		if !ok1 || !ok2 {
+			panic(e.unsupported(fn.String() + " on symbolic strings"))
+		}
+		return e.c64(uint64(int64(f(a, b)))), true
+	}
+}
+
+func icStrStrStr(f func(a, b string) string) interceptFn {
+	return func(e *Engine, fr *frame, fn *ssa.Function, args []Value, c *ssa.CallCommon) (Value, bool) {
+		a, ok1 := e.goString(args[0])
+		b, ok2 := e.goString(args[1])
+		if !ok1 || !ok2 {
+			panic(e.unsupported(fn.String() + " on symbolic strings"))
+		}
+		return e.concStr(f(a, b)), true
+	}
 }
